@@ -7,7 +7,7 @@ import vlib
 from vlib import zl, ql, zlit, qlit
 
 HEADER = '''From Coq Require Import ZArith QArith List Bool.
-From Pymoto Require Import Base.Num Base.Cmp Base.SparseLin Model.Grid Model.Pad Model.Conv Model.DensFilt.
+From Pymoto Require Import Base.Num Base.Cmp Base.SparseLin Model.Grid Model.Pad Model.Conv Model.DensFilt Model.FiltHist.
 Import ListNotations.
 Open Scope Z_scope.
 Definition G (a b c : Z) := {| nelx := a; nely := b; nelz := c |}.
@@ -20,6 +20,27 @@ Definition lookup (tab : list (Z * Q)) (k : Z) : Q :=
 Definition Qmax (a b : Q) : Q := if Qle_bool a b then b else a.
 Definition cols_eqb (m : list (list (Z * Q))) (o : list (list Z)) : bool := Zll_eqb (map (map fst) m) o.
 Definition vals_close (t : Q) (m : list (list (Z * Q))) (o : list (list Q)) : bool := Qll_close t (map (map snd) m) o.
+Inductive fo := OY (y : list Q) | OP (p : list (list (list Q))).
+Definition fobs_ok (o : fobs Q) (b : Q * fo) : bool :=
+  match o, snd b with
+  | ObsY y, OY y' => Ql_close (fst b) y y'
+  | ObsPad p, OP p' => Qlll_close (fst b) p p'
+  | _, _ => false
+  end.
+Fixpoint fhist_ok (outs : list (fobs Q)) (obs : list (Q * fo)) : bool :=
+  match outs, obs with
+  | [], [] => true
+  | o :: t, b :: u => fobs_ok o b && fhist_ok t u
+  | _, _ => false
+  end.
+Fixpoint dhist_ok (outs : list (option (list Q))) (obs : list (Q * list Q)) : bool :=
+  match outs, obs with
+  | [], [] => true
+  | Some y :: t, b :: u => Ql_close (fst b) y (snd b) && dhist_ok t u
+  | _, _ => false
+  end.
+Definition DO (g : grid) (de : Z) (wt : Z -> Q) (np : option (list Z)) : dopts Q :=
+  {| do_g := g; do_delem := de; do_wtab := wt; do_nonpad := np |}.
 Definition err_eqb (a b : option perr) : bool :=
   match a, b with None, None => true | Some ErrValue, Some ErrValue => true | Some ErrAssert, Some ErrAssert => true
   | Some ErrOther, Some ErrOther => true | _, _ => false end.
@@ -478,6 +499,327 @@ def oracle_dens(ctx, grid, r, x, y, nonpad):
                       expected=[float(np.min(x)), float(np.max(x))], got=y.tolist())
 
 
+# ----------------------------------------------------------------------------- histories / populations of filter modules
+def index_of(spec, shape):
+    """JSON index specification -> numpy index expression for an array of `shape`"""
+    f = spec['form']
+    if f == 'mask':
+        return np.array(spec['mask'], dtype=bool).reshape(shape)
+    if f == 'ints':
+        return tuple(np.array(a, dtype=int) for a in spec['idx'])
+    if f == 'point':
+        return tuple(int(a) for a in spec['p'])
+    if f == 'slice':
+        return (slice(spec['a'], spec['a'] + 2), slice(None), 0)
+    if f == 'box':
+        return tuple(np.meshgrid(*[np.array(r, dtype=int) for r in spec['ranges']], indexing='ij'))
+    if f == 'empty':
+        return (np.array([], dtype=int), np.array([], dtype=int), np.array([], dtype=int))
+    raise ValueError(f)
+
+
+def cone_ref(r, relative, sizes, shape):
+    """the cone kernel max(0, r - d) / sum on the offsets of a kernel of the given (odd) shape"""
+    d = [1.0, 1.0, 1.0] if relative else list(sizes)
+    ax = [(np.arange(s) - s // 2) * d[k] for k, s in enumerate(shape)]
+    X, Y, Z = np.meshgrid(*ax, indexing='ij')
+    w = np.maximum(0.0, r - np.sqrt(X * X + Y * Y + Z * Z))
+    return w / w.sum()
+
+
+def kern_coq(grid, r, relative, sizes4):
+    rq = Fraction(float(r))
+    scale = (1, 1, 1) if relative else tuple(sizes4)
+    shift = 0 if relative else 2
+    d = [Fraction(1)] * 3 if relative else [Fraction(sv, 4) for sv in sizes4]
+    tab = wtab_for(float(r), scale, shift, tuple(grid))
+    dl = [f'(radius_delem {qlit(rq)}%Q {qlit(d[i])}%Q {grid[i]})' for i in range(3)]
+    return f'(radius_kernel {dl[0]} {dl[1]} {dl[2]} {scale[0]} {scale[1]} {scale[2]} (lookup {tab_lit(tab)}))'
+
+
+def run_population(ctx, pym, cs, pop):
+    """several filter modules in one process on shared DomainDefinition objects and one shared input signal; a global
+    sequence of operations (constructions included) is executed on the implementation; every FilterConv module's own
+    sub-history is evaluated by Model/FiltHist.v `frun`, all DensityFilter modules together by `drun`; every response is
+    compared with an independent numpy statement of the property.
+    pop = dict(name, grid, sizes4, mods=[spec], ops=[[what, k, ...]])"""
+    grid = tuple(pop['grid'])
+    nx, ny, nz = grid
+    n1 = (max(1, nx), max(1, ny), max(1, nz))
+    nelem = nx * ny * n1[2]
+    sizes4 = pop.get('sizes4') or [4, 4, 4]
+    sizes = [sv / 4.0 for sv in sizes4]
+    doms = [pym.DomainDefinition(nx, ny, nz, *sizes), pym.DomainDefinition(nx, ny, nz, *sizes)]
+    sx = pym.Signal('x', np.zeros(nelem))
+    mods = [dict(spec=sp_, m=None, ops=[], obs=[], ovs=[], owned=[]) for sp_ in pop['mods']]
+    g = f'(G {nx} {ny} {nz})'
+    dens_ops, dens_obs, dens_index = [], [], {}
+    pub = dict(pop)
+
+    def bad(site, pred, detail, expected=None, got=None):
+        ctx.violation('impl-violates', site, pred, 'several modules / histories', dict(population=pub, detail=detail),
+                      expected=expected, got=got)
+
+    def own(rec, name, arr):
+        rec['owned'].append((name, arr, arr.copy()))
+
+    for step, op in enumerate(pop['ops']):
+        what, k = op[0], op[1]
+        rec = mods[k]
+        spec = rec['spec']
+        site = 'DensityFilter' if spec['kind'] == 'dens' else 'FilterConv'
+        try:
+            if what == 'new':
+                dom = doms[spec.get('dom', 0)]
+                if spec['kind'] == 'dens':
+                    kw = {}
+                    if spec.get('nonpad') is not None:
+                        npd = np.array(spec['nonpad'], dtype=int)
+                        own(rec, 'nonpadding', npd)
+                        kw['nonpadding'] = npd
+                    rec['m'] = pym.DensityFilter(sx, domain=dom, radius=spec['radius'], **kw)
+                    dens_index[k] = len(dens_index)
+                    tab = wtab_for(float(spec['radius']), (1, 1, 1), 0, (nx, ny, n1[2]))
+                    npq = 'None' if spec.get('nonpad') is None else f'(Some {zl(list(spec["nonpad"]))})'
+                    dens_ops.append(f'DNew (DO {g} (dens_delem {qlit(Fraction(float(spec["radius"])))}%Q) (lookup {tab_lit(tab)}) {npq})')
+                    ctx.count('hist:dens ' + ('nonpadding' if spec.get('nonpad') is not None else 'plain'))
+                else:
+                    modes = [mm if isinstance(mm, str) else float(mm) for mm in spec['modes']]
+                    kw = dict(zip(BC_KEYS, modes))
+                    if spec.get('weights') is not None:
+                        w = np.array(spec['weights'], dtype=float)
+                        own(rec, 'weights', w)
+                        rec['m'] = pym.FilterConv(sx, domain=dom, weights=w, **kw)
+                        w3 = w if w.ndim == 3 else w[:, :, None]
+                        rec['f0'] = f'(mk_fconv {g} {ql(qarr(w3))}%Q {coq_modes(modes)} [])'
+                    else:
+                        r, rel = spec['radius']
+                        rec['m'] = pym.FilterConv(sx, domain=dom, radius=r, relative_units=rel, **kw)
+                        rec['f0'] = f'(mk_fconv {g} {kern_coq(grid, r, rel, sizes4)} {coq_modes(modes)} [])'
+                    rec['modes'] = modes
+                    rec['w'] = np.array(rec['m'].weights, dtype=float)
+                    rec['pads'] = list(rec['m'].pad_sizes)
+                    rec['pshape'] = tuple(n1[d] + 2 * rec['pads'][d] for d in range(3))
+                    ctx.count('hist:fconv ' + ('weights' if spec.get('weights') is not None else 'radius'))
+                continue
+            m = rec['m']
+            if m is None:
+                raise RuntimeError('module was not constructed')
+            if what in ('resp', 'padded'):
+                x = np.array(op[2], dtype=float)
+                xin = x.copy()
+                if what == 'resp':
+                    sx.state = xin
+                    m.response()
+                    y = np.array(m.sig_out[0].state, dtype=float).copy()
+                else:
+                    y = np.array(m.get_padded_vector(xin), dtype=float)
+                finite(y)
+                ctx.search_evaluations += 1
+                if not np.array_equal(xin, x):
+                    bad(site, 'caller-owned argument is left unchanged', dict(step=step, argument='x'))
+                det = dict(step=step, module=k, op=what, x=list(map(float, x)))
+                if spec['kind'] == 'dens':
+                    dens_ops.append(f'DResp {dens_index[k]}%nat {ql(qarr(x))}%Q')
+                    dens_obs.append(f'({qlit(tol_for(y, x))}%Q, {ql(qarr(y))}%Q)')
+                    oracle_dens(ctx, grid, float(spec['radius']), x, y, spec.get('nonpad'))
+                    ctx.count('hist:dens response')
+                else:
+                    rec['ops'].append(('FResp ' if what == 'resp' else 'FPadded ') + f'{ql(qarr(x))}%Q')
+                    rec['obs'].append(f'({qlit(tol_for(y, x))}%Q, {"OY" if what == "resp" else "OP"} {ql(qarr(y))}%Q)')
+                    ctx.count('hist:fconv ' + what + (' after overrides' if rec['ovs'] else ''))
+                    w3, pads, modes = rec['w'], rec['pads'], rec['modes']
+                    if ideal_ok(grid, pads, modes):
+                        xp = ref_xpad(grid, pads, modes, x)
+                        for pts, v in rec['ovs']:
+                            for (a, b, c) in pts:
+                                xp[a, b, c] = v
+                        ref = ref_conv(grid, w3, xp) if what == 'resp' else xp
+                        scale = max(1.0, float(np.max(np.abs(x)))) * max(1.0, float(np.sum(np.abs(w3))))
+                        if ref.shape != y.shape or np.max(np.abs(ref - y)) > 1e-9 * scale:
+                            bad(site, 'y = kernel * extended field with ALL registered overrides' if what == 'resp'
+                                else 'padded vector = extended field with ALL registered overrides', det,
+                                expected=np.asarray(ref).tolist(), got=y.tolist())
+                    if not rec['ovs'] and what == 'resp' and not any(isinstance(mm, Number) for mm in modes) \
+                            and np.all(w3 >= 0) and abs(np.sum(w3) - 1) < 1e-12:
+                        sc_ = max(1.0, float(np.max(np.abs(x))))
+                        if np.min(y) < np.min(x) - 1e-9 * sc_ or np.max(y) > np.max(x) + 1e-9 * sc_:
+                            bad(site, 'min x <= y <= max x', det, [float(np.min(x)), float(np.max(x))], y.tolist())
+            elif what == 'ovval':
+                idx = index_of(op[2], n1)
+                pts = sel_points(n1, idx)
+                m.override_values(idx, float(op[3]))
+                rec['ops'].append(f'FOvVal {pts_lit(pts)} {qlit(Fraction(float(op[3])))}%Q')
+                rec['ovs'].append(([(a + rec['pads'][0], b + rec['pads'][1], c + rec['pads'][2]) for a, b, c in pts], float(op[3])))
+                ctx.count('hist:override_values ' + op[2]['form'])
+            elif what == 'ovpad':
+                idx = index_of(op[2], rec['pshape'])
+                pts = sel_points(rec['pshape'], idx)
+                m.override_padded_values(idx, float(op[3]))
+                rec['ops'].append(f'FOvPad {pts_lit(pts)} {qlit(Fraction(float(op[3])))}%Q')
+                rec['ovs'].append((pts, float(op[3])))
+                ctx.count('hist:override_padded_values ' + op[2]['form'])
+            elif what == 'setradius':
+                r, rel = op[2], op[3]
+                m.set_filter_radius(r, rel)
+                w = np.array(m.weights, dtype=float)
+                ctx.search_evaluations += 1
+                if w.shape != rec['w'].shape:
+                    raise RuntimeError('harness: set_filter_radius changed the kernel shape (outside the generated class)')
+                wr = cone_ref(r, rel, sizes, w.shape)
+                if np.max(np.abs(w - wr)) > 1e-12:
+                    bad('FilterConv.set_filter_radius', 'kernel = normalised cone', dict(step=step, radius=r, relative_units=rel),
+                        expected=wr.tolist(), got=w.tolist())
+                rec['w'] = w
+                rec['ops'].append(f'FSetW {kern_coq(grid, r, rel, sizes4)}')
+                ctx.count('hist:set_filter_radius')
+        except Exception as e:   # noqa
+            import traceback
+            bad(site, 'admissible history handled: no exception, finite output', dict(step=step, op=repr(op)[:300], error=repr(e)[:400],
+                                                                                      where=traceback.format_exc()[-800:]))
+            rec['broken'] = True
+    for k, rec in enumerate(mods):
+        for name, arr, snap in rec['owned']:
+            ctx.search_evaluations += 1
+            if not np.array_equal(arr, snap):
+                bad('DensityFilter' if rec['spec']['kind'] == 'dens' else 'FilterConv', 'caller-owned argument is left unchanged',
+                    dict(module=k, argument=name))
+        if rec['spec']['kind'] == 'fconv' and rec.get('f0') and rec['obs'] and not rec.get('broken'):
+            expr = f'fhist_ok (frun {rec["f0"]} [' + '; '.join(rec['ops']) + ']) [' + '; '.join(rec['obs']) + ']'
+            cs.add(('hist-fconv', pop['name'], k, len(rec['obs'])), expr, replay=dict(kind='population', population=pub, module=k))
+    if dens_obs and not any(r_.get('broken') for r_ in mods if r_['spec']['kind'] == 'dens'):
+        expr = 'dhist_ok (drun Qmax [] [' + '; '.join(dens_ops) + ']) [' + '; '.join(dens_obs) + ']'
+        cs.add(('hist-dens', pop['name'], len(dens_obs)), expr, replay=dict(kind='population', population=pub))
+    ctx.count('hist:populations')
+
+
+def interior_of(grid):
+    nx, ny, nz = grid
+    n1z = max(nz, 1)
+    return [(c * ny + b) * nx + a for c in range(n1z) for b in range(ny) for a in range(nx)
+            if 0 < a < nx - 1 and (ny < 3 or 0 < b < ny - 1) and (n1z < 3 or 0 < c < n1z - 1)]
+
+
+def stress_populations(rng):
+    """deterministic structure, run on every seed (only the field values vary with the seed)"""
+    pops = []
+
+    def fld(n):
+        return [float(v) for v in rand_field(rng, n)]
+    # ---- P1..P3: DensityFilter populations: plain / nonpadding filters of equal (size, radius) on one domain object and on
+    #      an equal second one, built and evaluated in interleaved order; earlier filters re-evaluated after later ones exist
+    for name, grid, radii in (('P1 dens 5x4', (5, 4, 0), (2.5, 1.5)), ('P2 dens 3-D', (3, 2, 2), (1.5,)), ('P3 dens 6x1, r > domain', (6, 1, 0), (6.5, 1.0))):
+        n = grid[0] * grid[1] * max(grid[2], 1)
+        inner = interior_of(grid) or [0]
+        mods, ops = [], []
+        x1, x2, xc = fld(n), fld(n), [0.75] * n
+        for r in radii:
+            b = len(mods)
+            mods += [dict(kind='dens', radius=r, nonpad=None, dom=0), dict(kind='dens', radius=r, nonpad=inner, dom=0),
+                     dict(kind='dens', radius=r, nonpad=None, dom=1), dict(kind='dens', radius=r, nonpad=sorted(set(range(n)) - set(inner))[:max(1, n // 3)], dom=1),
+                     dict(kind='dens', radius=r, nonpad=None, dom=0)]
+            ops += [['new', b], ['resp', b, x1], ['new', b + 1], ['resp', b + 1, x1], ['resp', b, x1], ['resp', b, xc],
+                    ['new', b + 2], ['resp', b + 2, x2], ['new', b + 3], ['resp', b + 3, x2], ['resp', b + 1, x2], ['resp', b, x2],
+                    ['new', b + 4], ['resp', b + 4, x1], ['resp', b + 4, xc], ['resp', b + 2, xc], ['resp', b + 3, x1]]
+        # a nonpadding filter built BEFORE the plain one of the same size and radius
+        b = len(mods)
+        r = radii[0] + 0.25
+        mods += [dict(kind='dens', radius=r, nonpad=inner, dom=0), dict(kind='dens', radius=r, nonpad=None, dom=0),
+                 dict(kind='fconv', radius=[radii[0], True], modes=['symmetric'] * 6, dom=0)]
+        ops += [['new', b], ['resp', b, x1], ['new', b + 1], ['resp', b + 1, x1], ['resp', b + 1, xc], ['resp', 0, x1],
+                ['new', b + 2], ['resp', b + 2, x1], ['resp', b + 2, xc], ['resp', 0, xc]]
+        pops.append(dict(name=name, grid=list(grid), sizes4=[4, 4, 4], mods=mods, ops=ops))
+    # ---- P4: FilterConv, 2-D: overrides registered after the first response / after get_padded_vector / between responses;
+    #      several modules on one domain with different boundary modes; set_filter_radius between responses
+    grid = (4, 3, 0)
+    n = 12
+    w33 = rand_kernel(rng, [3, 3, 1], 'normalised')
+    mask = [[[bool((a + b) % 3 == 0)] for b in range(3)] for a in range(4)]
+    x1, x2 = fld(n), fld(n)
+    mods = [dict(kind='fconv', weights=w33[:, :, 0].tolist(), modes=[0.0, 'symmetric', 'edge', 1.0, 'symmetric', 'symmetric'], dom=0),
+            dict(kind='fconv', weights=w33.tolist(), modes=['wrap', 'wrap', 'symmetric', 'edge', 'symmetric', 'symmetric'], dom=0),
+            dict(kind='fconv', radius=[1.5, True], modes=['symmetric', 2.0, 'symmetric', 'symmetric', 'symmetric', 'symmetric'], dom=0),
+            dict(kind='fconv', radius=[2.6, False], modes=['edge', 'symmetric', -1.0, 'wrap', 'symmetric', 'symmetric'], dom=1)]
+    ops = [['new', 0], ['resp', 0, x1], ['ovval', 0, dict(form='mask', mask=mask), 1.0], ['resp', 0, x1],
+           ['new', 1], ['padded', 1, x1], ['ovval', 1, dict(form='point', p=[2, 1, 0]), 0.0], ['padded', 1, x1], ['resp', 1, x1],
+           ['ovval', 0, dict(form='point', p=[3, 1, 0]), 0.0], ['resp', 0, x2], ['padded', 0, x2],
+           ['ovpad', 0, dict(form='ints', idx=[[0, 5], [1, 4], [0, 0]]), 2.0], ['resp', 0, x2],
+           ['ovpad', 1, dict(form='empty'), 9.0], ['resp', 1, x2],
+           ['ovpad', 1, dict(form='box', ranges=[[0, 1], [0, 1, 2], [0]]), -2.0], ['resp', 1, x2],
+           ['ovval', 1, dict(form='slice', a=1), 3.0], ['resp', 1, x1], ['resp', 0, x1],
+           ['new', 2], ['resp', 2, x1], ['setradius', 2, 1.9, True], ['resp', 2, x1], ['ovval', 2, dict(form='ints', idx=[[0, 3], [2, 0], [0, 0]]), 0.5],
+           ['resp', 2, x1], ['setradius', 2, 1.25, True], ['resp', 2, x2], ['resp', 0, x2],
+           ['new', 3], ['ovval', 3, dict(form='point', p=[0, 0, 0]), 1.0], ['resp', 3, x1], ['ovval', 3, dict(form='point', p=[1, 2, 0]), 0.0],
+           ['resp', 3, x1], ['setradius', 3, 2.9, False], ['resp', 3, x2], ['resp', 1, x2]]
+    pops.append(dict(name='P4 fconv 2-D override histories', grid=list(grid), sizes4=[4, 5, 4], mods=mods, ops=ops))
+    # ---- P5: FilterConv 3-D
+    grid = (2, 3, 2)
+    n = 12
+    w333 = rand_kernel(rng, [3, 3, 3], 'normalised')
+    x1, x2 = fld(n), fld(n)
+    mods = [dict(kind='fconv', weights=w333.tolist(), modes=['symmetric', 'edge', 'wrap', 'wrap', 0.0, 'symmetric'], dom=0),
+            dict(kind='fconv', weights=w333.tolist(), modes=['symmetric'] * 6, dom=0)]
+    ops = [['new', 0], ['new', 1], ['resp', 0, x1], ['resp', 1, x1], ['ovval', 0, dict(form='point', p=[1, 1, 1]), 1.0], ['resp', 0, x1],
+           ['ovval', 1, dict(form='ints', idx=[[0, 1], [2, 0], [1, 0]]), 0.0], ['resp', 1, x1], ['resp', 0, x2],
+           ['ovpad', 0, dict(form='ints', idx=[[0], [0], [3]]), 5.0], ['resp', 0, x2], ['padded', 0, x2], ['resp', 1, x2]]
+    pops.append(dict(name='P5 fconv 3-D override histories', grid=list(grid), sizes4=[4, 4, 4], mods=mods, ops=ops))
+    return pops
+
+
+def random_population(rng, idx):
+    three_d = rng.random() < 0.25
+    nx, ny = rng.randint(1, 4), rng.randint(1, 4)
+    nz = rng.randint(1, 2) if three_d else 0
+    n1 = (nx, ny, max(nz, 1))
+    n = nx * ny * n1[2]
+    mods, ops = [], []
+    radii = [rng.choice([0.75, 1.0, 1.5, 2.0, 2.3, 2.5, max(n1) + 0.5]) for _ in range(2)]
+
+    def fld():
+        return [float(v) for v in rand_field(rng, n)]
+    nmod = rng.randint(3, 6)
+    for k in range(nmod):
+        if rng.random() < 0.55:
+            r = rng.choice(radii)
+            nonpad = sorted(rng.sample(range(n), rng.randint(0, n))) if rng.random() < 0.5 else None
+            mods.append(dict(kind='dens', radius=r, nonpad=nonpad, dom=rng.choice((0, 0, 1))))
+        else:
+            kinds = [rng.choice(MODES) for _ in range(6)]
+            modes = make_modes(kinds, rng)
+            if rng.random() < 0.5:
+                pads = [rng.randint(0, min(n1[d], 1 if three_d else 2)) for d in range(3)]
+                if not three_d:
+                    pads[2] = 0
+                w = rand_kernel(rng, [2 * p + 1 for p in pads], rng.choice(['int', 'normalised']))
+                mods.append(dict(kind='fconv', weights=w.tolist(), modes=modes, dom=rng.choice((0, 1))))
+            else:
+                r = rng.choice([0.75, 1.5, 2.5]) if not three_d else rng.choice([0.75, 1.5])
+                mods.append(dict(kind='fconv', radius=[r, True], modes=modes, dom=rng.choice((0, 1))))
+        ops += [['new', k], ['resp', k, fld()]]
+        for _ in range(rng.randint(1, 3)):
+            j = rng.randrange(k + 1)
+            if mods[j]['kind'] == 'fconv' and rng.random() < 0.6:
+                form = rng.choice(['mask', 'ints', 'point'])
+                if form == 'mask':
+                    spec = dict(form='mask', mask=[[[rng.random() < 0.3 for _ in range(n1[2])] for _ in range(n1[1])] for _ in range(n1[0])])
+                elif form == 'ints':
+                    q = rng.randint(1, 3)
+                    spec = dict(form='ints', idx=[[rng.randrange(n1[d]) for _ in range(q)] for d in range(3)])
+                else:
+                    spec = dict(form='point', p=[rng.randrange(n1[d]) for d in range(3)])
+                ops.append(['ovval', j, spec, float(rng.choice([0, 1, -3, 2.5]))])
+                if mods[j].get('radius') is not None and rng.random() < 0.4:
+                    r0 = mods[j]['radius'][0]
+                    ops.append(['setradius', j, r0 + rng.choice([0.1, 0.2, -0.2]), True])
+            ops.append([rng.choice(['resp', 'resp', 'padded']) if mods[j]['kind'] == 'fconv' else 'resp', j, fld()])
+    order = list(range(nmod))
+    rng.shuffle(order)
+    x = fld()
+    ops += [['resp', j, x] for j in order]
+    return dict(name=f'random population {idx}', grid=[nx, ny, nz], sizes4=[4, 4, 4], mods=mods, ops=ops)
+
+
+
 # ----------------------------------------------------------------------------- generation
 def rand_kernel(rng, shape, kind):
     if kind == 'int':
@@ -718,6 +1060,12 @@ def run(ctx):
         if nonpad is None:
             oracle_const(ctx, m, m.sig_in[0], n, [], 'DensityFilter._response')
 
+    # ---- histories and populations: several modules per process, option-changing methods between responses
+    for pop in stress_populations(rng):
+        run_population(ctx, pym, cs, pop)
+    for t in range(6 if quick else 60):
+        run_population(ctx, pym, cs, random_population(rng, t))
+
     # ---- malformed stream: exception class only
     for kind, shape in (('both', (3, 3)), ('neither', None), ('even', (2, 3)), ('even', (3, 4)), ('even', (3, 3, 2)),
                         ('even', (4, 4, 4))):
@@ -741,7 +1089,7 @@ def run(ctx):
                       theorem='cases_c09')
     for idx in failing[:20]:
         lab = cs.labels[idx]
-        site = {'dens': 'DensityFilter', 'np.pad': 'numpy.pad', 'malformed': 'FilterConv._prepare'}.get(str(lab[0]), 'FilterConv')
+        site = {'dens': 'DensityFilter', 'hist-dens': 'DensityFilter', 'np.pad': 'numpy.pad', 'malformed': 'FilterConv._prepare'}.get(str(lab[0]), 'FilterConv')
         ctx.violation('correspondence', site, 'model == implementation', str(lab[0]),
                       dict(label=repr(lab), replay=cs.replay[idx], coq_check=cs.checks[idx][:3000]),
                       note='Coq model and implementation differ')
